@@ -43,7 +43,7 @@ CLAIMED = {
             "Trusted: Lean kernel + standard axioms; gen_tables.py; transcription of grad/reconstruction (validated by L-rhs1d); sampling.",
             "DESIGN.md 4/C11"),
     'C14': ("Lean 4 refinement theorem (periodic uniform 1D pipeline = cyclic seam-free pipeline for every n>=1) and shift-equivariance corollaries + correspondence",
-            "Machine-checked proof that on a uniform periodic mesh the 1D residual commutes with every cyclic shift, for any reconstruction, cons2prim and pointwise flux, including n = 1,2,3. 2D: the residual commutes with cyclic shifts along x and along y for periodic pairs (any other pair arbitrary). Whole solves (C14b through the driver morphism theorem C07c.run_equivariant): for every explicit integrator (any Butcher table, low-storage list, explicit, rk2; global or local time step) the solve of cyclically shifted data has the same stop flag, iteration counts, times, iteration tags and monitor logs, and cell-wise shifted data in the final field, every snapshot and every trajectory state. Partial: implicit family at step level for affine operators (C06b) and by the sweep; 2D solves not instantiated.",
+            "Machine-checked proof that on a uniform periodic mesh the 1D residual commutes with every cyclic shift, for any reconstruction, cons2prim and pointwise flux, including n = 1,2,3. 2D: the residual commutes with cyclic shifts along x and along y for periodic pairs (any other pair arbitrary). Whole solves (C14b through the driver morphism theorem C07c.run_equivariant): for every explicit integrator (any Butcher table, low-storage list, explicit, rk2; global or local time step) the solve of cyclically shifted data has the same stop flag, iteration counts, times, iteration tags and monitor logs, and cell-wise shifted data in the final field, every snapshot and every trajectory state. 2D whole solves (x, y, both; global or local time step) and the implicit family on scalar models (affine operators, and any nonlinear operator under permutations of the unknowns since the finite-difference Jacobian is exactly equivariant; gear with its memory) are proved in C14c. Partial: the flattening of systems (Euler, shallow water) for the implicit model and implicit integrators in 2D are checked by the sweep.",
             "Trusted: Lean kernel + standard axioms; transcription of fvm1d (validated by L-rhs1d); sampling.",
             "DESIGN.md 4/C14"),
     'C19': ("Lean 4 theorems on add_source, nozzle source composition and geometric term + correspondence (L-rhs1d with nozzle sources, L-noz)",
